@@ -1391,3 +1391,44 @@ package desync
 //@   loop 2: invariant $wn >= old($wn) && n == $wn - old($wn)
 //@   loop 3: invariant $wn >= old($wn) && n == $wn - old($wn)
 //@   loop 4: invariant $wn >= old($wn) && n == $wn - old($wn)
+
+// ---------------------------------------------------------------------------------------------
+// C03: the remaining backends hand every body they fetched to the verifying constructor with the
+// requested id and their own converters / skip flag, and return nothing else as a chunk.
+
+//# the skip flag of the pooled connection that served the request (every connection carries the store's options)
+//@ ghost var $sftpSkip bool
+
+//@ func (s S3Store) GetChunk
+//@   prop C03
+//@   safety none
+//@   oncall NewChunkFromStorage: requires $arg0 == id && $arg2 == s.converters && $arg3 == s.opt.SkipVerify
+//@   label retry: invariant true
+//@   ensures @C03 r1 == nil ==> r0 != nil && r0.idCalculated && r0.id == id && (H(plain(r0)) == id || s.opt.SkipVerify)
+
+//@ func (s *SFTPStore) GetChunk
+//@   prop C03
+//@   safety none
+//@   oncall NewChunkFromStorage: requires $arg0 == id && $arg2 == s.converters && $arg3 == c.opt.SkipVerify
+//@   ghost@before:NewChunkFromStorage $sftpSkip = c.opt.SkipVerify
+//@   ensures @C03 r1 == nil ==> r0 != nil && r0.idCalculated && r0.id == id && (H(plain(r0)) == id || $sftpSkip)
+
+//@ func (s GCStore) GetChunk
+//@   prop C03
+//@   safety none
+//@   oncall NewChunkFromStorage: requires $arg0 == id && $arg2 == s.converters && $arg3 == s.opt.SkipVerify
+//@   ensures @C03 r1 == nil ==> r0 != nil && r0.idCalculated && r0.id == id && (H(plain(r0)) == id || s.opt.SkipVerify)
+
+//# casync-over-SSH: verification can not be switched off for this transport
+//@ func (p *Protocol) RequestChunk
+//@   prop C03
+//@   safety none
+//@   modifies all, $consumed, $rp, $wn
+//@   oncall NewChunkFromStorage: requires $arg0 == id && !$arg3
+//@   ensures @C03 r1 == nil ==> r0 != nil && r0.idCalculated && r0.id == id && H(plain(r0)) == id
+
+//@ func (r *RemoteSSH) GetChunk
+//@   prop C03
+//@   safety none
+//@   modifies all, $consumed, $rp, $wn
+//@   ensures @C03 r1 == nil ==> r0 != nil && r0.idCalculated && r0.id == id && H(plain(r0)) == id
